@@ -9,8 +9,10 @@
    Proved so far for the fragment [in_frag] (proofs/SimplifierSem_proofs.v, [ok_node]):
      stage 1: And Or Not Implies Iff Ite Equals, symbols, the five kinds of constants, function
      applications, ForAll / Exists;
-     stage 2: Plus Times Minus LE LT ToReal Div on Int and Real, and Pow with a non-negative
-     integer constant exponent (the exponents for which Sem.vpow is defined);
+     stage 2: Plus Times Minus LE LT ToReal Div on Int and Real, and Pow with an integer constant
+     exponent of either sign (Sem.vpow: x ^ (-n) = 1 / x ^ n; 0 ^ (-n) is a division by zero, with
+     the unconstrained value rdiv0 I 1 - the simplifier folds a negative power only of a non-zero
+     constant and RAISES on 0 ^ negative, which is the open finding: simplify_opt = None there);
      stage 3: bit-vector not neg and or xor add sub mul udiv urem sdiv srem shl lshr ashr concat
      comp, ult ule slt sle, bv2nat, extract rol ror zext sext - every bit-vector operator (the
      bit-string rules go through core/PyPrimsLemmas.v: bin_str / int_of_bits / slices against
@@ -34,7 +36,7 @@
      sfind sreplace sprefix ssuffix ssub sto_int sfrom_int there (str(): the model prints 16
      digits per long division, Sem.v one digit at a time; both are the decimal digits).
    Every operator of the term language is now in the fragment; what [in_frag] leaves out: Pow
-   with a negative, non-integer or non-constant exponent, and array values outside the canonical
+   with a non-integer or non-constant exponent, and array values outside the canonical
    form above (array-sorted indices, non-constant / unsorted / duplicate indices, a value that is
    syntactically the default).
    [in_frag] also asks what the constructors guarantee and tc does not check: arities, BV
@@ -73,7 +75,8 @@ Theorem C01_simplify_frag_closed : forall ora t ty r,
   in_frag t = true -> tc t = Some ty -> simplify_opt ora t = Some r -> in_frag r = true.
 Proof. exact simplify_frag_closed. Qed.
 (* (for C02) closed, quantifier-free, UF-free terms of the fragment - [cfrag]: operators And Or Not
-   Implies Iff Ite Equals Plus Times Minus LE LT ToReal Div Pow, every bit-vector operator and
+   Implies Iff Ite Equals Plus Times Minus LE LT ToReal Div Pow (non-negative exponents only:
+   [pownn], since 0 ^ negative raises), every bit-vector operator and
    relation of the fragment, bv2nat, and constants only - in which no
    divisor evaluates to 0 ([nodiv0], every branch counted) simplify to a CONSTANT of the same
    sort with the same value *)
